@@ -233,6 +233,10 @@ def run(prop, tier, seed):
             graphs = rng.sample(graphs, 2500)       # the 4-node sparse domain: TLC checks all 15,625, 2,500 are replayed
         for i, (directed, triples) in enumerate(graphs):
             jobs.append((rng.randrange(1 << 30), directed, triples, PLABS[(i + seed) % len(PLABS)], tier, nodes))
+    # design level only: the algorithm model on *accumulative* graphs (interactions persist between the snapshot ids)
+    for cfg in (["MC_paths_acc.cfg"] if tier == "quick" else ["MC_paths_acc.cfg", "MC_paths_accd.cfg"]):
+        res = tlc.run_mc(cfg, "MC_paths.tla", workers=8, timeout=3000)
+        chk.add_mc(res, "InvPaths, InvValid, InvDag on accumulative graphs: algorithm model = declarative path set over the snapshot ids")
     # larger random graphs (4-6 nodes, up to 6 instants)
     for _ in range(30 if tier == "quick" else 600):
         nn = rng.choice([4, 5, 6])
